@@ -120,6 +120,9 @@ theorem rectangle_half_width (x0 x1 y0 y1 : Rat) (hx : x0 ≠ x1) (hy : y0 ≠ y
       = ((y1 - y0) / 2) ^ 2 :=
   ⟨rect_half_width_x x0 x1 y0 y1 hy, rect_half_width_y x0 x1 y0 y1 hx⟩
 
+-- column a of the C04 example: [0,2] x [0,2], centre (1,1), edge x = 2: squared distance (2/2)²
+example : P2.normSq (P2.sub (lineProjection ⟨1, 1⟩ ⟨2, 0⟩ ⟨2, 2⟩) ⟨1, 1⟩) = ((2 - 0) / 2 : Rat) ^ 2 := by decide +kernel
+
 /-! ### orientation -/
 
 /-- The rotation `match_position` applies is a rotation (`cos² + sin² = 1` for the normalised
